@@ -21,4 +21,5 @@ CHECK = {'title': 'Hotter never means slower',
  'level_note': 'bounded: grid resolution 1 m-degree near breakpoints / 100 m-degree elsewhere; temperatures and speeds from the listed alphabets; '
                'function trees up to 3 function nodes over a 4-member catalogue (quick: 2-4 members depending on tree size)',
  'runs': [{'pkg': 'internal/curves', 'test': 'TestVX_C07a', 'shards_quick': 16, 'shards_thorough': 16},
-          {'pkg': 'internal/controller', 'test': 'TestVX_C07b', 'shards_quick': 8, 'shards_thorough': 16}]}
+          {'pkg': 'internal/controller', 'test': 'TestVX_C07b', 'shards_quick': 8, 'shards_thorough': 16},
+          {'pkg': 'internal/curves', 'test': 'TestVX_C07conc', 'shards_quick': 8, 'shards_thorough': 12}]}
